@@ -10,26 +10,34 @@ REL = ['-O1', '-DNDEBUG', '-DUNODB_DETAIL_WITH_STATS', '-DUNODB_SPINLOCK_LOOP_VA
 
 
 def successors(live, next_id, rng=None, small=True):
-    """all well-formed operations in a state (live ids), with a small argument set"""
+    """all well-formed operations in a state; live = frozenset of (id, nonnull). Pointer arithmetic is only applied to
+    non-null wrappers (arithmetic on a null pointer is outside the contract of raw pointers as well)"""
     ops = []
     fresh = next_id
-    ops.append(('P %d 100' % fresh, live | {fresh}, fresh + 1))
-    ops.append(('P %d -1' % fresh, live | {fresh}, fresh + 1))
-    ops.append(('D %d' % fresh, live | {fresh}, fresh + 1))
-    for s in sorted(live):
-        ops.append(('C %d %d' % (fresh, s), live | {fresh}, fresh + 1))
-        ops.append(('M %d %d' % (fresh, s), live | {fresh}, fresh + 1))
-        ops.append(('I %d' % s, live, next_id))
-        ops.append(('J %d' % s, live, next_id))
-        ops.append(('PI %d %d' % (s, fresh), live | {fresh}, fresh + 1))
-        ops.append(('AA %d 3' % s, live, next_id))
-        ops.append(('SA %d 2' % s, live, next_id))
-        ops.append(('A %d %d 4' % (s, fresh), live | {fresh}, fresh + 1))
-        ops.append(('X %d' % s, live - {s}, next_id))
-        for d in sorted(live):
+    ids = {i for i, _ in live}
+    nn = {i for i, n in live if n}
+
+    def setn(l, i, v):
+        return frozenset([(j, n) for j, n in l if j != i] + [(i, v)])
+    ops.append(('P %d 100' % fresh, setn(live, fresh, True), fresh + 1))
+    ops.append(('P %d -1' % fresh, setn(live, fresh, False), fresh + 1))
+    ops.append(('D %d' % fresh, setn(live, fresh, False), fresh + 1))
+    for s in sorted(ids):
+        sn = s in nn
+        ops.append(('C %d %d' % (fresh, s), setn(live, fresh, sn), fresh + 1))
+        ops.append(('M %d %d' % (fresh, s), setn(setn(live, fresh, sn), s, False), fresh + 1))
+        if sn:
+            ops.append(('I %d' % s, live, next_id))
+            ops.append(('J %d' % s, live, next_id))
+            ops.append(('PI %d %d' % (s, fresh), setn(live, fresh, True), fresh + 1))
+            ops.append(('AA %d 3' % s, live, next_id))
+            ops.append(('SA %d 2' % s, live, next_id))
+            ops.append(('A %d %d 4' % (s, fresh), setn(live, fresh, True), fresh + 1))
+        ops.append(('X %d' % s, frozenset((j, n) for j, n in live if j != s), next_id))
+        for d in sorted(ids):
             if d != s:
-                ops.append(('AC %d %d' % (d, s), live, next_id))
-                ops.append(('AM %d %d' % (d, s), live, next_id))
+                ops.append(('AC %d %d' % (d, s), setn(live, d, sn), next_id))
+                ops.append(('AM %d %d' % (d, s), setn(setn(live, d, sn), s, False), next_id))
     return ops
 
 
